@@ -29,7 +29,7 @@ CHECKS.update({
     "C01": e2("For every instance (concrete 3-node shapes and fully symbolic 2/3-node DAGs, W<=3) the solver shows no interleaving of the real engine statements starts a call before all its ancestors ended successfully; any model is replayed on real threads before it is reported.", "DESIGN.md §4 C01"),
     "C04": e2("Same transition system: no node's function starts twice in any interleaving, and when run returns normally every node started exactly once.", "DESIGN.md §4 C04"),
     "C06": e2("Same transition system with symbolic outcomes (ok / Exception / BaseException-only) and max_errors: nothing downstream of a failure starts; run raises iff something failed; the raised NodeError names a failed node and carries that node's exception; with one worker it is the first failure.", "DESIGN.md §4 C06"),
-    "C07": e2("Unwinding query = every interleaving terminates within K steps (no deadlock, no livelock) for every failure pattern and max_errors; at return all threads have exited and nothing is in flight; on cyclic symbolic graphs the run raises before any call starts.", "DESIGN.md §4 C07"),
+    "C07": e2("Unwinding query = every interleaving terminates within K steps (no deadlock, no livelock) for every failure pattern and max_errors; at return all threads have exited and nothing is in flight; on cyclic symbolic graphs the run raises before any call starts; also with one refused Thread.start (RuntimeError) at any worker, and the rendering of a failed call's symbolic traceback terminates within a read budget (E1 lemma).", "DESIGN.md §4 C07, §11.11"),
     "C10": e2("In-flight calls never exceed W; no lock held while a call runs; failure counts vs max_errors (<= k+W; ==min(k+1, failing roots) for W=1; exhaustive for None); for each concrete instance some schedule reaches min(W, width) calls in flight (else: proven loss of parallelism, replayed with a barrier on the real engine).", "DESIGN.md §4 C10"),
 })
 
